@@ -181,12 +181,54 @@ def _evaluate_mt(cases, binp):
     return flat
 
 
+def _evaluate_f(cases, binp):
+    """histories with injected source failures (X calls): the model with a failing source (run_f) and the specification, Tie verdict_f"""
+    rc, outl, err = K.run_lines(binp, ["cc"], [_line(c) for c in cases])
+    if rc != 0 or len(outl) != len(cases):
+        raise K.TieBroken("h_symbols cc failed (rc=%s, %d/%d lines): %s" % (rc, len(outl), len(cases), err[-500:]))
+    st = _state.setdefault("source_failures", {"injected": 0, "calls_that_met_one": 0})
+    terms = []
+    for c, l in zip(cases, outl):
+        res = l.split("|")[0].split()
+        evs, obs, armed = [], [], False
+        for it, t in zip(c["items"], res):
+            if it[0] == "X":
+                armed = True
+                st["injected"] += 1
+                continue
+            met = t.endswith("!")
+            st["calls_that_met_one"] += 1 if met else 0
+            evs.append("(%s, %s)" % ("true" if armed else "false", _coq_op(it)))
+            obs.append("(%s, %s)" % (_coq_obs(t.rstrip("!")), "true" if met else "false"))
+            armed = False
+        terms.append("(%d, %s, %s, %s, %s)" % (c["flen"], K.coq_list([str(z) for z in c["zs"]]), K.coq_list([str(z) for z in c["ts"]]), K.coq_list(evs), K.coq_list(obs)))
+    shards = ["Definition cases : list (N * list N * list N * list (bool * op) * list (obs * bool)) := %s.\nEval vm_compute in (map verdict_f cases).\n" % K.coq_list(ch)
+              for ch in K.chunked(terms, K.NCPU)]
+    try:
+        res = K.coq_eval(PROP, "From SV Require Import Model.ChunkCache Tie.C13.\nOpen Scope N_scope.", shards)
+    except RuntimeError as ex:
+        raise K.TieBroken(str(ex))
+    flat = [v for r in res for v in r]
+    if len(flat) != len(cases):
+        raise K.TieBroken("verdict count mismatch %d vs %d" % (len(flat), len(cases)))
+    return flat
+
+
 def evaluate(cases):
     if not cases:
         return []
     ok, log, bindir = K.cargo_build("h_symbols")
     if not ok:
         raise K.TieBroken("harness h_symbols does not build against the current tree:\n" + log[-1500:])
+    fx = [(i, c) for i, c in enumerate(cases) if not c.get("mt") and any(it[0] == "X" for it in c["items"])]
+    if fx:
+        out = [None] * len(cases)
+        for (i, _), v in zip(fx, _evaluate_f([c for _, c in fx], os.path.join(bindir, "h_symbols"))):
+            out[i] = v
+        rest = [(i, c) for i, c in enumerate(cases) if (i, c) not in fx]
+        for (i, _), v in zip(rest, evaluate([c for _, c in rest])):
+            out[i] = v
+        return out
     mt = [(i, c) for i, c in enumerate(cases) if c.get("mt")]
     if mt:
         out = [None] * len(cases)
@@ -202,12 +244,7 @@ def evaluate(cases):
     terms = []
     for c, l in zip(cases, outl):
         res = l.split("|")[0].split()
-        # X calls, and the calls during which the source failed ("!"), take no part: a failed read leaves no trace, so every other call must
-        # answer as the specification (and the model, run on the remaining calls) says
-        keep = [(it, t) for it, t in zip(c["items"], res) if it[0] != "X" and not t.endswith("!")] if len(res) == len(c["items"]) else list(zip(c["items"], res))
-        st = _state.setdefault("source_failures", {"injected": 0, "calls_that_met_one": 0})
-        st["injected"] += sum(1 for it in c["items"] if it[0] == "X")
-        st["calls_that_met_one"] += sum(1 for t in res if t.endswith("!"))
+        keep = list(zip(c["items"], res))
         terms.append("(%d, %s, %s, %s, %s)" % (c["flen"], K.coq_list([str(z) for z in c["zs"]]), K.coq_list([str(z) for z in c["ts"]]),
                                                K.coq_list([_coq_op(it) for it, _ in keep]), K.coq_list([_coq_obs(t) for _, t in keep])))
     shards = ["Definition cases : list (N * list N * list N * list op * list obs) := %s.\nEval vm_compute in (map verdict cases).\n" % K.coq_list(ch)
